@@ -10,7 +10,7 @@ Local Open Scope N_scope.
 Inductive c29case :=
 | CaseFile (prefix : list N) (ver : N) (written : list N)
            (fast rdr li : option (list N)) (entries : list (N * list N * list N))
-| CaseBig (hdr : list N) (namelen : N) (fast_eq rdr_eq li_eq : bool)   (* names too long to print: compared by the harness *)
+| CaseBig (hdr : list N) (ver : N) (namelen : N) (fast_eq rdr_eq li_eq : bool)   (* names too long to print: compared by the harness *)
 | CaseDir (written : list (N * bool)) (listing : list N).
 
 Definition obytes_eqb := option_eqb bytes_eqb.
@@ -35,10 +35,14 @@ Definition check_case (c : c29case) : N :=
           if bytes_eqb nm [] && obytes_eqb fast (Some (meta_name es))
              && obytes_eqb fast (Some (scan_meta es)) then 0 else 1
       end
-  | CaseBig hdr namelen fast_eq rdr_eq li_eq =>
-    if negb fast_eq then 2 else if negb li_eq then 3 else if negb rdr_eq then 4
+  | CaseBig hdr ver namelen fast_eq rdr_eq li_eq =>
+    if negb fast_eq then 2 else if negb li_eq then 3
+    else if N.eqb ver Version3 && negb rdr_eq then 4
     else match deser_fh hdr with
-         | Some h => if N.eqb (fh_version h) Version3 && N.eqb (fh_namelen h) namelen then 0 else 1
+         | Some h =>
+           if N.eqb (fh_version h) ver
+              && (if N.eqb ver Version3 then N.eqb (fh_namelen h) namelen else N.eqb (fh_namelen h) 0)
+           then 0 else 1
          | None => 1
          end
   | CaseDir written listing =>
